@@ -421,7 +421,7 @@ def gen_args_case(rng: random.Random) -> Dict[str, Any]:
     calls = []
     for _ in range(rng.randrange(2, 6)):
         use_filter = bool(filters) and rng.random() < 0.85
-        use_api = api and rng.random() < 0.9
+        use_api = (2 if rng.random() < 0.25 else 1) if (api and rng.random() < 0.9) else 0      # 2: api data with an extra column
         idx = list(range(len(feats)))
         rng.shuffle(idx)
         chosen: List[int] = []
@@ -469,10 +469,13 @@ class Pool:
             for f in case["filters"]:
                 self.filter.add_filter(Feature(f["name"], options=dict(f["opts"])) if f["opts"] else f["name"], f["type"], dict(f["param"]))
         self.api = uni.api_default()
+        self.api2 = None
+        if self.api is not None:
+            self.api2 = {k: dict(v, z=[0] * len(next(iter(v.values())))) for k, v in uni.api_default().items()}  # type: ignore[union-attr]
 
     def objects(self) -> Dict[str, Any]:
         return {"features": self.features, "options": self.options, "links_set": self.links_set, "filter": self.filter,
-                "api": self.api}
+                "api": self.api, "api2": self.api2}
 
 
 def val_of(v: Any) -> Any:
@@ -575,7 +578,7 @@ def do_call(uni: Uni7, pool: Pool, call: Dict[str, Any]) -> Dict[str, Any]:
                               global_filter=pool.filter if call["filter"] else None,
                               copy_features=call["copy"], strict_type_enforcement=call["strict"])
     if call["api"]:
-        kw["api_data"] = pool.api
+        kw["api_data"] = pool.api2 if call["api"] == 2 else pool.api
     feats = [pool.features[i] for i in call["feats"]]
     res: Dict[str, Any] = {"plan": None, "err": None, "run": None}
     _captured.clear()
@@ -648,7 +651,7 @@ def run_args_case(case: Dict[str, Any]) -> Dict[str, Any]:
         if call["copy"] and after_feat != before_feat:
             rec["problems"].append(f"call {ci}: copy_features=True but the caller's Feature/Options objects were modified: "
                                    f"{diff_paths(before_feat, after_feat)[:4]}")
-        if dump(pool.api) != dump(fpool.api) or dump(pool.api) != dump(uni.api_default()):
+        if dump(pool.api) != dump(uni.api_default()) or dump(pool.api2) != dump(fpool.api2) or dump(fpool.api) != dump(uni.api_default()):
             rec["problems"].append(f"call {ci}: the caller's api_data was modified")
         # -- reuse = fresh ?
         same_plan = (got["err"] == fgot["err"]) and ((got["plan"] is None) == (fgot["plan"] is None)) and \
@@ -732,7 +735,7 @@ def cq_call(case: Dict[str, Any], call: Dict[str, Any]) -> str:
     api = "None"
     if call["api"]:
         g = case["spec"]["groups"][0]
-        api = f"(Some {cq_cols([(g['key'], list(g['cols']))])})"
+        api = f"(Some {cq_cols([(g['key'], list(g['cols']) + (['z'] if call['api'] == 2 else []))])})"
     return (f"{{| c_feats := {cq_list(cq_nat(i) for i in call['feats'])}; c_copy := {cq_bool(call['copy'])}; "
             f"c_strict := {cq_bool(call['strict'])}; c_api := {api}; c_links := {cq_bool(call['links'])}; "
             f"c_filter := {cq_bool(call['filter'])} |}}")
